@@ -2,6 +2,18 @@
 SOURCE_COMMITS = []
 NOT_APPLICABLE = {}
 CHECKS = {
+ "C19": {
+  "text": "ArchiveRetention.tla (index tables and LIMIT queue of `bob archive` transcribed; the documented retention semantics as step "
+          "properties over the archive only) is model-checked exhaustively over all upload/external-removal/scan/clean/find histories "
+          "(--dry-run, -n) within <=4 artifacts, <=4 history operations, <=2 commands, and over all 4-artifact archives x catalogued "
+          "expressions; TLC-simulated histories and TLC's own stale-index counterexamples are replayed with real audit trails and "
+          "real artifact packing against the real in-process command with a warm and a per-command fresh index; every observed "
+          "transition is judged by TLC with the property layer only. Bounded model checking plus conformance, not a proof.",
+  "design_ref": "DESIGN.md section 4, C19",
+  "note": "closure follows references of present artifacts only; every upload changes the stat data (virtual mtime clock); -n judged against the last scanned archive; ties may resolve either way; single file archive via -l; value catalogue instantiated by seed",
+  "technique": "TLA+ spec + TLC exhaustive check (monitor-variable step properties, vacuity control, as-found and incomplete-repair model variants); TLC -simulate behaviours replayed into bob.cmds.archive with real Audit/LocalArchive artifacts in two index modes; TLC trace judging of observed transitions against the P layer",
+ },
+
  "C09": {
   "text": "ArchivePublish.tla (2-3 uploaders x package/metadata names x 2 archives + cache-mirroring downloader + reader, I/O error "
           "or kill at any file-system operation) is model-checked exhaustively for Atomic, NeverOverwrite, FailedLeavesNothing "
